@@ -5,9 +5,12 @@ open Emboss.Enum
 #print axioms C19_to_name_first
 #print axioms C19_is_known_iff_declared
 #print axioms C19_switch_labels_distinct
-#print axioms C19_enumerators_distinct_partial
-#print axioms C19_enumerators_counterexample
+#print axioms C19_enumerators_distinct
+#print axioms C19_rejects_only_camel_collisions
+#print axioms C19_collision_rejected
+#print axioms C19_ostream
 #print axioms C19_enum_case_precedence
 #print axioms C19_field_accepts_in_range_partial
 #print axioms C19_field_signed_full_width_partial
+#print axioms C19_field_text_number_partial
 #print axioms C19_field_counterexample
